@@ -238,6 +238,10 @@ def deductFee (s : State) (sender : Addr) : Except Err State :=
         | none => rej "sdk/5"
         | some b3 => .ok { s with bank := b3 }
 
+/-- mint `m` shares of pool `n` to the sender on top of bank `b`; the response is the minted coin -/
+def minted (s : State) (b : Bank) (sender : Addr) (n m : Nat) : State × CoinList :=
+  ({ s with bank := b.mint sender (lptDenom n) m }, [(lptDenom n, m)])
+
 /-- `addLiquidity`: deposit both coins, mint shares to the sender -/
 def addLiq (s : State) (sender : Addr) (n : Nat) (cp : Denom) (dS tokA mint : Nat) : R :=
   match s.bank.send sender (poolAddr n) s.std dS with
@@ -245,9 +249,9 @@ def addLiq (s : State) (sender : Addr) (n : Nat) (cp : Denom) (dS tokA mint : Na
   | some b1 =>
     match b1.send sender (poolAddr n) cp tokA with
     | none => rej "sdk/5"
-    | some b2 => .ok ({ s with bank := b2.mint sender (lptDenom n) mint }, [(lptDenom n, mint)])
+    | some b2 => .ok (minted s b2 sender n mint)
 
-def addFits (X Y L dS : Nat) : Bool :=
+def addFits (X Y dS : Nat) : Bool :=
   decide (Y * dS < pow2_256) && decide (Y * dS / X + 1 < pow2_256)
 
 /-- `AddLiquidity` on an existing pool with balances -/
@@ -255,7 +259,7 @@ def addExisting (s : State) (sender : Addr) (n : Nat) (cp : Denom) (maxA dS minL
   if resX s n = 0 ∨ resY s n cp = 0 ∨ shares s n = 0 then rej "coinswap/8"
   else if ¬ (shares s n * dS < pow2_256) then pnc "int overflow"
   else if shares s n * dS / resX s n < minL then rej "coinswap/8"
-  else if ¬ addFits (resX s n) (resY s n cp) (shares s n) dS then pnc "int overflow"
+  else if ¬ addFits (resX s n) (resY s n cp) dS then pnc "int overflow"
   else if maxA < resY s n cp * dS / resX s n + 1 then rej "coinswap/8"
   else addLiq s sender n cp dS (resY s n cp * dS / resX s n + 1) (shares s n * dS / resX s n)
 
@@ -296,9 +300,7 @@ def stepAdd1 (s : State) (sender : Addr) (cp tokD : Denom) (a minL : Nat) (deadl
       else match s.bank.send sender (poolAddr n) tokD a with
         | none => rej "sdk/5"
         | some b1 =>
-          .ok ({ s with bank := b1.mint sender (lptDenom n)
-                    (add1Mint (s.bank.balOf (poolAddr n) tokD) (shares s n) a (D - s.params.ufee)) },
-               [(lptDenom n, add1Mint (s.bank.balOf (poolAddr n) tokD) (shares s n) a (D - s.params.ufee))])
+          .ok (minted s b1 sender n (add1Mint (s.bank.balOf (poolAddr n) tokD) (shares s n) a (D - s.params.ufee)))
 
 /-- `removeLiquidity`: burn the shares (via the module account), pay both coins from the pool -/
 def removeLiq (s : State) (sender : Addr) (n : Nat) (cp : Denom) (w x y : Nat) : R :=
@@ -447,8 +449,8 @@ def vb : Op → Option String
   | .rem1 sender cp minD minA lptA dl =>
     firstErr [(if cp = "" then some "vb:sdk/18" else none), vbToken minD minA,
               (if lptA < 0 then some "vb:sdk/18" else none), vbDeadline dl, vbSender sender]
-  | .setParams _ fee tax ufee _ pcfA =>
-    if 0 < fee ∧ fee < D ∧ 0 < pcfA ∧ 0 < tax ∧ tax < D ∧ 0 ≤ ufee ∧ ufee < D then none else some "invalid"
+  | .setParams auth fee tax ufee _ pcfA =>
+    if validAddr auth ∧ 0 < fee ∧ fee < D ∧ 0 < pcfA ∧ 0 < tax ∧ tax < D ∧ 0 ≤ ufee ∧ ufee < D then none else some "invalid"
 
 /-- one delivered message: `ValidateBasic`, then the handler -/
 def step (s : State) (op : Op) : R :=
